@@ -5,6 +5,8 @@
 //!   prep     ( objs so se )                      -> ( entry ( (name start len crc) ... ) )     helper for the generator
 //!   members  ( entry )                           -> ( (name start len crc) ... )                helper: the real reader's view
 //!   pack     ( objs so se )                      -> ( render ( r ... ) so se )
+//!   history  ( ( objs so se ) ... )              -> one pack observation or ( write_err ) per op, all packed on one thread;
+//!            an object's 5th element = none | n: the reader handed to put_object fails after n bytes
 //!   level    ( objs so se env cands )            -> ( render ( r ... ) so se )      packed with SCCACHE_CACHE_ZSTD_LEVEL = env
 //!            env = ( ) unset | ( #bytes ); prep and extract take the same env as 4th / 5th element
 //!   read     ( entry reqs frames specs )         -> ( verdict ... )   one per expanded corruption
@@ -148,6 +150,28 @@ struct Obj {
     data: Vec<u8>,
     optional: bool,
     present: bool,
+    /// history leg: the reader handed to put_object fails after this many bytes
+    fail: Option<usize>,
+}
+
+/// a source that yields `data[..fail_at]` in small pieces and then an I/O error (a file on a failing disk / NFS)
+struct FailingReader<'a> {
+    data: &'a [u8],
+    pos: usize,
+    fail_at: usize,
+}
+
+impl<'a> std::io::Read for FailingReader<'a> {
+    fn read(&mut self, buf: &mut [u8]) -> std::io::Result<usize> {
+        let end = self.fail_at.min(self.data.len());
+        if self.pos >= end {
+            return Err(std::io::Error::new(std::io::ErrorKind::Other, "injected read error"));
+        }
+        let n = buf.len().min(end - self.pos).min(4096);
+        buf[..n].copy_from_slice(&self.data[self.pos..self.pos + n]);
+        self.pos += n;
+        Ok(n)
+    }
 }
 
 fn objs_of(x: &Sx) -> Vec<Obj> {
@@ -159,6 +183,7 @@ fn objs_of(x: &Sx) -> Vec<Obj> {
             data: content(o.arg(2)),
             optional: o.arg(4).as_bool(),
             present: o.list().len() < 6 || o.arg(5).as_bool(),
+            fail: None,
         })
         .collect()
 }
@@ -166,8 +191,11 @@ fn objs_of(x: &Sx) -> Vec<Obj> {
 fn pack(objs: &[Obj], so: &[u8], se: &[u8]) -> Result<Vec<u8>, String> {
     let mut w = CacheWrite::new();
     for o in objs {
-        w.put_object(&o.name, &mut Cursor::new(&o.data[..]), o.mode)
-            .map_err(|e| format!("{:#}", e))?;
+        match o.fail {
+            None => w.put_object(&o.name, &mut Cursor::new(&o.data[..]), o.mode),
+            Some(n) => w.put_object(&o.name, &mut FailingReader { data: &o.data[..], pos: 0, fail_at: n }, o.mode),
+        }
+        .map_err(|e| format!("{:#}", e))?;
     }
     w.put_stdout(so).map_err(|e| format!("{:#}", e))?;
     w.put_stderr(se).map_err(|e| format!("{:#}", e))?;
@@ -293,6 +321,25 @@ fn render(entry: &[u8]) -> Sx {
     Sx::L(out)
 }
 
+/// ( render ( r ... ) so se ): the entry and what the real reader makes of it
+fn pack_observation(entry: &[u8], objs: &[Obj], so: &[u8], se: &[u8]) -> Sx {
+    let mut origs: Vec<Vec<u8>> = objs.iter().map(|o| o.data.clone()).collect();
+    origs.push(so.to_vec());
+    origs.push(se.to_vec());
+    let reqs: Vec<String> = objs.iter().map(|o| o.name.clone()).collect();
+    let v = read_verdict(entry.to_vec(), &reqs, &origs);
+    let mut out = vec![render(entry)];
+    match v {
+        Sx::L(l) => {
+            out.push(Sx::L(l[2..].to_vec()));
+            out.push(l[0].clone());
+            out.push(l[1].clone());
+        }
+        other => out.push(other),
+    }
+    Sx::L(out)
+}
+
 static NIL: Sx = Sx::L(Vec::new());
 
 fn main() {
@@ -326,19 +373,29 @@ fn main() {
                     .collect();
                 return Sx::L(vec![Sx::B(entry), Sx::L(ms)]);
             }
-            let mut origs: Vec<Vec<u8>> = objs.iter().map(|o| o.data.clone()).collect();
-            origs.push(so.clone());
-            origs.push(se.clone());
-            let reqs: Vec<String> = objs.iter().map(|o| o.name.clone()).collect();
-            let v = read_verdict(entry.clone(), &reqs, &origs);
-            let mut out = vec![render(&entry)];
-            match v {
-                Sx::L(l) => {
-                    out.push(Sx::L(l[2..].to_vec()));
-                    out.push(l[0].clone());
-                    out.push(l[1].clone());
+            pack_observation(&entry, &objs, &so, &se)
+        }
+        "history" => {
+            // every op is packed on THIS thread, one after the other, like the entries a pool thread packs
+            std::env::remove_var("SCCACHE_CACHE_ZSTD_LEVEL");
+            let mut out = vec![];
+            for op in case.list() {
+                let mut objs = objs_of(op.arg(0));
+                for (o, x) in objs.iter_mut().zip(op.arg(0).list()) {
+                    o.optional = false;
+                    o.present = true;
+                    o.fail = match x.arg(4) {
+                        Sx::N(n) => Some(*n as usize),
+                        _ => None,
+                    };
                 }
-                other => out.push(other),
+                let so = content(op.arg(1).arg(0));
+                let se = content(op.arg(2).arg(0));
+                out.push(match catch(|| pack(&objs, &so, &se)) {
+                    Ok(Ok(entry)) => pack_observation(&entry, &objs, &so, &se),
+                    Ok(Err(_)) => Sx::L(vec![Sx::sym("write_err")]),
+                    Err(_) => Sx::L(vec![Sx::sym("panic")]),
+                });
             }
             Sx::L(out)
         }
